@@ -4,7 +4,7 @@
 (* neighbours), the subject being a base frame with                                             *)
 (*   - no deviation                                     ("wf"; also run through the REAL encoder)*)
 (*   - one length field claiming a deviation class      (kind "dev")                            *)
-(*   - two deviating fields, one of them the total      (kind "dev2", thorough)                 *)
+(*   - two deviating fields, one of them the total      (kind "dev2", thorough, subject alone)  *)
 (*   - slack bytes after the deadline                   (kind "slack")                          *)
 (*   - the stream cut at every field boundary of the subject and boundary +-1  (kind "cut")     *)
 (* TLC evaluates the decoder of Frame.tla for every entry point on every case (theorems below)  *)
@@ -15,7 +15,8 @@ CONSTANTS Bases,        \* set of base frames (no deviation)
           CtxOk(_, _),  \* which contexts a base frame is put into
           U32Classes, U16Classes, NameClasses,
           Pairs,        \* BOOLEAN: also two-field deviations
-          CutDevs       \* BOOLEAN: also cut the deviating frames at their end -1
+          CutDevs,      \* BOOLEAN: also cut the deviating frames at their end -1
+          CutInCtx      \* BOOLEAN: cut the subject also when it has neighbours (else only when alone)
 
 VARIABLES c, dec
 NoCase == [kind |-> "seed", frames |-> <<>>, pos |-> 0, cut |-> -1, wf |-> FALSE]
@@ -53,10 +54,10 @@ Pick == /\ c.kind = "base"
                post == SubSeq(c.frames, c.pos + 1, Len(c.frames)) IN
              \/ Set(Mk("wf", pre, f, post, -1))
              \/ \E dv \in Devs1(f) : Set(Mk("dev", pre, [f EXCEPT !.dev = dv], post, -1))
-             \/ Pairs /\ \E dv \in Devs2(f) : Set(Mk("dev2", pre, [f EXCEPT !.dev = dv], post, -1))
+             \/ Pairs /\ Len(c.frames) = 1 /\ \E dv \in Devs2(f) : Set(Mk("dev2", pre, [f EXCEPT !.dev = dv], post, -1))
              \/ f.fmt = "meta" /\ f.md /\ Set(Mk("slack", pre, [f EXCEPT !.slack = 1], post, -1))
-             \/ \E k \in Cuts(f) : Set(Mk("cut", pre, f, post, k))
-             \/ CutDevs /\ \E dv \in Devs1(f) : Set(Mk("devcut", pre, [f EXCEPT !.dev = dv], post, TotalLen(f) - 1))
+             \/ (CutInCtx \/ Len(c.frames) = 1) /\ \E k \in Cuts(f) : Set(Mk("cut", pre, f, post, k))
+             \/ CutDevs /\ Len(c.frames) = 1 /\ \E dv \in Devs1(f) : Set(Mk("devcut", pre, [f EXCEPT !.dev = dv], post, TotalLen(f) - 1))
 Next == PickBase \/ Pick
 Spec == Init /\ [][Next]_<<c, dec>>
 
